@@ -16,6 +16,7 @@ From NV Require Import Proofs.EngineProofs Proofs.RuleChecksProofs Proofs.RuleCh
 From NV Require Import Proofs.RuleChecksSpacing Proofs.RuleChecksSpacing3 Proofs.SpacingTotal Proofs.RuleChecksSpacing2.
 From NV Require Import Model.CounterBase Gen.MoreChecks Proofs.MoreChecksProofs.
 From NV Require Import Model.NameBase Gen.NameChecks Proofs.NameChecksProofs Proofs.NameChecksLift.
+From NV Require Import Model.PreprocBase Gen.PreprocChecks Proofs.PreprocProofs.
 From NV Require Import Gen.Counters Model.ScopeBase Gen.ScopeOps Model.ScopeTrace Model.ScopeBody Model.CounterTrace Proofs.ScopeTraceProofs Proofs.CounterProofs.
 Local Open Scope Z_scope.
 
@@ -31,7 +32,7 @@ Definition C02_statement (program : Type) (wf : program -> Prop) (render : progr
 
 Definition proved_operators : list string :=
   ["S05"; "L01"; "S03"; "S04"; "S07"; "S08"; "W01"; "W03"; "W04"; "W05"; "W06"; "W07"; "W08"; "W09"; "W10"; "W12"; "W13"; "W14"; "W15"; "W17";
-   "T01"; "T02"; "T03"; "T04"; "S01"; "S02"; "S06"; "S11"; "O07"; "N01"; "N02"; "K01"; "K02"; "K03"; "D04"; "F03"; "F04"; "F05"]%string.
+   "T01"; "T02"; "T03"; "T04"; "S01"; "S02"; "S06"; "S11"; "O07"; "N01"; "N02"; "K01"; "K02"; "K03"; "D04"; "F03"; "F04"; "F05"; "P04"; "P05"; "P06"; "P09"; "P10"; "P11"; "P12"]%string.
 
 (* ---- S05 ternary *)
 Theorem C02_partial_S05 : forall toks scope v i t,
@@ -340,6 +341,62 @@ Theorem C02_partial_F05_given_trace : forall g rest hs E nl b nlc, isglobal g ->
     ((total_nl b > 25 -> ems q = tml :: E) /\ (total_nl b <= 25 -> ems q = E)).
 Proof. exact too_many_lines_25. Qed.
 Print Assumptions C02_partial_F05_given_trace.
+
+(* ---- CheckPreprocessorIndent (Gen/PreprocChecks.v): h = the first token of the line that is not white space (the `#`), whenever the
+   check ends normally *)
+(* the EXACT list of diagnostics of the check, part by part *)
+Theorem C02_partial_preproc_indent_exact : forall toks glob pindent h E, peek toks (skip_ws toks 0) = Some h ->
+  check_preproc_indent toks glob pindent = Ok E ->
+  (empty_directive toks = true /\ E = start_part h ++ global_part glob h) \/
+  (empty_directive toks = false /\ exists t3 ind, peek toks (name_pos toks) = Some t3 /\ expected_indent toks (name_pos toks) t3 pindent ind /\
+     E = start_part h ++ global_part glob h ++ tab1_part toks ++ indent_part h t3 ind ++
+         (if has_args toks (name_pos toks) t3 then args_part toks (name_pos toks + 1) else [])).
+Proof. exact ppi_exact. Qed.
+Print Assumptions C02_partial_preproc_indent_exact.
+(* P09: the `#` is not in column 1 *)
+Theorem C02_partial_P09 : forall toks glob pindent h E, peek toks (skip_ws toks 0) = Some h ->
+  check_preproc_indent toks glob pindent = Ok E -> t_col h <> 1 -> In (at_tok ppi_c_start h) E.
+Proof. exact ppi_start_reported. Qed.
+Print Assumptions C02_partial_P09.
+(* P12: a directive that is not at file level (glob = isinstance(scope, GlobalScope), from the trace) *)
+Theorem C02_partial_P12_given_trace : forall toks glob pindent h E, peek toks (skip_ws toks 0) = Some h ->
+  check_preproc_indent toks glob pindent = Ok E -> glob = false -> In (at_tok ppi_c_global h) E.
+Proof. exact ppi_global_reported. Qed.
+Print Assumptions C02_partial_P12_given_trace.
+(* P10 / P11: the directive name t3 is further from / nearer to the `#` than the expected indentation (pindent = context.preproc.indent,
+   from the trace) *)
+Theorem C02_partial_P10_given_trace : forall toks glob pindent h E, peek toks (skip_ws toks 0) = Some h ->
+  check_preproc_indent toks glob pindent = Ok E -> empty_directive toks = false ->
+  forall t3, peek toks (name_pos toks) = Some t3 -> forall ind, expected_indent toks (name_pos toks) t3 pindent ind ->
+  t_col t3 - t_col h - 1 > ind -> In (at_tok ppi_c_many h) E.
+Proof. exact ppi_many_reported. Qed.
+Print Assumptions C02_partial_P10_given_trace.
+Theorem C02_partial_P11_given_trace : forall toks glob pindent h E, peek toks (skip_ws toks 0) = Some h ->
+  check_preproc_indent toks glob pindent = Ok E -> empty_directive toks = false ->
+  forall t3, peek toks (name_pos toks) = Some t3 -> forall ind, expected_indent toks (name_pos toks) t3 pindent ind ->
+  t_col t3 - t_col h - 1 < ind -> In (at_tok ppi_c_bad h) E.
+Proof. exact ppi_bad_reported. Qed.
+Print Assumptions C02_partial_P11_given_trace.
+(* P06 / P05 / P04: after the name of an argumented directive whose argument is on the line: no blank, a tab after the spaces, more
+   than one blank *)
+Theorem C02_partial_P06 : forall toks glob pindent h E, peek toks (skip_ws toks 0) = Some h ->
+  check_preproc_indent toks glob pindent = Ok E -> empty_directive toks = false ->
+  forall t3, peek toks (name_pos toks) = Some t3 -> has_args toks (name_pos toks) t3 = true -> args_reached toks (name_pos toks + 1) = true ->
+  forall t, peek toks (name_pos toks + 1) = Some t -> str_in (t_type t) [ppi_sp2; ppi_tab2] = false -> In (at_tok ppi_c_nospace t) E.
+Proof. exact ppi_nospace_reported. Qed.
+Print Assumptions C02_partial_P06.
+Theorem C02_partial_P05 : forall toks glob pindent h E, peek toks (skip_ws toks 0) = Some h ->
+  check_preproc_indent toks glob pindent = Ok E -> empty_directive toks = false ->
+  forall t3, peek toks (name_pos toks) = Some t3 -> has_args toks (name_pos toks) t3 = true -> args_reached toks (name_pos toks + 1) = true ->
+  forall t, peek toks (sp_end toks (name_pos toks + 1)) = Some t -> str_eqb (t_type t) ppi_tab3 = true -> In (at_tok ppi_c_tab2 t) E.
+Proof. exact ppi_tab_reported. Qed.
+Print Assumptions C02_partial_P05.
+Theorem C02_partial_P04 : forall toks glob pindent h E, peek toks (skip_ws toks 0) = Some h ->
+  check_preproc_indent toks glob pindent = Ok E -> empty_directive toks = false ->
+  forall t3, peek toks (name_pos toks) = Some t3 -> has_args toks (name_pos toks) t3 = true -> args_reached toks (name_pos toks + 1) = true ->
+  forall t, peek toks (name_pos toks + 1) = Some t -> skip_ws toks (name_pos toks + 1) - (name_pos toks + 1) > 1 -> In (at_tok ppi_c_consec t) E.
+Proof. exact ppi_consec_reported. Qed.
+Print Assumptions C02_partial_P04.
 
 (* ---- known findings, as far as the modelled checks show them *)
 (* W05 on a line holding a single token (`    {`): the model of CheckSpacing prints SPACE_EMPTY_LINE and no SPACE_REPLACE_TAB
